@@ -17,7 +17,9 @@ from . import ringbuffer_gen as g
 from .common import Ctx, python_flags
 
 RULE = ("a case = capacity 1-6, period (even µs; odd µs only in the model=code stream), align point, list/numpy "
-        "container, 1-25 updates placed relative to the current window (in order, inside, skipping, jump >= capacity, "
+        "container, datetimes in UTC or (25 %) in a non-UTC zone — Europe/Berlin, America/New_York, Lord Howe, fixed "
+        "offsets — with the window around a DST switch (the oracle works on instants), the buffer dumped/loaded or "
+        "deep-copied at random points of the history incl. before the first update (20 %), 1-25 updates placed relative to the current window (in order, inside, skipping, jump >= capacity, "
         "around the reject boundary; on/next to the grid and around the half-way point; value/None/NaN), then after "
         "EVERY update gaps/counts/oldest/newest and at the end 40-324 index windows, 37+ datetime windows (fill_value NaN, "
         "0, 0.0, negative, fractional, None; every explicit fill value through OrderedRingBuffer.window AND "
@@ -66,6 +68,15 @@ def tags_of(case: dict) -> tuple[list[str], bool]:
         tags.add("gaps>=2")
     if case.get("pickle"):
         tags.add("dump-load")
+    if case.get("tz"):
+        tags.add("tz:non-utc")
+        from .ringbuffer_gen import DST_SWITCHES
+        if any(abs(op["ts"] - sw) <= (case["cap"] + 1) * case["period"] for op in case["ops"] for sw in DST_SWITCHES):
+            tags.add("tz:around-dst-switch")
+    for k, how in case.get("reload", []):
+        tags.add(f"reload:{how}")
+        if k == 0:
+            tags.add("reload:before-first-update")
     for q in case["q"]:
         if q["k"] == "wts":
             if (q["a"] - case["align"]) % case["period"] or (q["b"] - case["align"]) % case["period"]:
